@@ -70,6 +70,9 @@ class SqlFluffTable(Table):
             else None
         )
         schema = Schema(parent_name) if parent_name is not None else Schema()
+        if parent_name is not None:
+            # the parts are escaped one by one already, escaping twice would lower-case a quoted name
+            schema.raw_name = parent_name
         kwargs = {"alias": alias} if alias else {}
         return Table(real_name, schema, **kwargs)
 
